@@ -36,6 +36,8 @@ func init() {
 			{ID: "C04.15", Desc: "the background revalidation works on a deep copy of the caller's request (its header map included)", Run: func(c *Ctx) { ruleC20_6(c); renameRule(c, "C20.6", "C04.15") }, MinSites: 1},
 			{ID: "C04.16", Desc: "what the normaliser keeps of one list member does not share memory with a buffer reused for the next (parameters of a;x=1, b;y=2)", Run: func(c *Ctx) { ruleScratchReuseEscapes(c, "C04.16") }, MinSites: 1},
 			{ID: "C04.17", Desc: "the stored reference carries the resolved request values on every path", Run: func(c *Ctx) { ruleVariantResolvedOnEveryPath(c, "C04.17") }, MinSites: 1},
+			{ID: "C04.18", Desc: "a nominated value is not cut down to its first pieces by the normaliser (credentials behind the second blank)", Run: func(c *Ctx) { ruleSplitPiecesAllUsed(c, "C04.18") }, MinSites: 1},
+			{ID: "C04.19", Desc: "only a response without Vary gets the fixed id (a variant with all nominated fields absent has its own)", Run: func(c *Ctx) { ruleNoVaryIDOnlyWithoutVary(c, "C04.19") }, MinSites: 1},
 		},
 	})
 }
